@@ -15,7 +15,8 @@ import ast
 from typing import Any, Dict, List, Optional
 
 from ..kit import Kit, is_call, key, norm
-from ..index import dotted, walk_shallow, unparse, parent as idx_parent
+from ..index import (dotted, walk_shallow, unparse, names_read,
+                     parent as idx_parent)
 from ..absint import (evaluate, product, Obj, Unknown, _Raise, NotEvaluable)
 
 CONN = 'connection.SSHConnection.'
@@ -705,3 +706,54 @@ def run(idx, rep, tier):
     _c16r2(k)
     for o in rep.obligations[_before:]:
         o.rule = 'C04.R11'
+    rep.rule('C04.R12', 'with HostKeyAlias set the known_hosts lookup is made '
+             'for the alias alone: the address argument of '
+             '_match_known_hosts in SSHClientConnection._connection_made is '
+             'not the plain peer address when self._host_key_alias is set '
+             '(OpenSSH does not consult the address then) - otherwise a key '
+             'listed only under the IP address is trusted for '
+             '"bank.example.com"')
+    _fi = k.func('connection.SSHClientConnection._connection_made')
+    _calls = [(n, c) for n, c in k.calls_named(_fi, '_match_known_hosts',
+                                               'self')]
+    rep.floor('C04.R12', 'known_hosts lookups', len(_calls), 1)
+    for _n, _c in _calls:
+        _a = _c.args[2] if len(_c.args) > 2 else None
+        _ok = _a is not None and 'self._host_key_alias' in names_read(_a)
+        rep.check(_ok, 'C04.R12',
+                  key(_fi, 'alias lookup ignores the address'),
+                  'address argument depends on self._host_key_alias',
+                  f'`{norm(_a) if _a is not None else "?"}` is passed as the '
+                  'address whatever the alias: connect(127.0.0.1, '
+                  'host_key_alias=bank.example.com) with known_hosts '
+                  '"[127.0.0.1]:port <key>" is accepted although nothing is '
+                  'listed for bank.example.com', k.loc(_fi, _n))
+    rep.rule('C04.R13', 'read_known_hosts reads every file of the list: a '
+             'handler that swallows an exception (FileNotFoundError ...) '
+             'never encloses the loop over the files - a missing user file '
+             'in front of the system-wide file that holds the @revoked '
+             'lines must not end the read (a handler inside the loop body, '
+             'skipping that one file, would be fine)')
+    _fk = k.func('known_hosts.read_known_hosts')
+    _loops = [x for x in ast.walk(_fk.node) if isinstance(x, ast.For)]
+    rep.floor('C04.R13', 'file loops in read_known_hosts', len(_loops), 1)
+    _bad = None
+    for _t in ast.walk(_fk.node):
+        if not isinstance(_t, ast.Try):
+            continue
+        _has_loop = any(isinstance(y, ast.For) for st in _t.body
+                        for y in ast.walk(st))
+        _swallow = any(not any(isinstance(z, ast.Raise) for z in ast.walk(h))
+                       for h in _t.handlers)
+        if _has_loop and _swallow:
+            _bad = _t
+    rep.check(_bad is None, 'C04.R13',
+              key(_fk, 'every listed file is read'),
+              'no swallowing handler around the loop',
+              'the first missing file ends the read: with UserKnownHostsFile '
+              'kh kh2 (kh2 absent) the global file with "@revoked * key" is '
+              'never loaded, the revoked key still listed in kh is accepted '
+              'and credentials are sent', _fk.loc(_bad) if _bad else '')
+    from .shared import share
+    from .c16 import r10 as _c16r10
+    share(k, 'C04.R14', 'a WebAuthn host key signature proves possession for this exchange (= C16.R10): the client data is compared with the prefix built from the exchange hash being verified', _c16r10)
